@@ -115,8 +115,9 @@ func (l *Lexer) scanHeader() Token {
 		return l.scanComment()
 	case ch == '|':
 		l.headerStage = headerInDescription
+		pipePos := l.position()
 		l.advance()
-		return l.makeToken(TokenPipe, "|")
+		return Token{Type: TokenPipe, Value: "|", Pos: pipePos, End: l.position()}
 	case ch == '=' && l.headerStage == headerAfterDate:
 		l.headerStage = headerExpectDate2
 		return l.scanEquals()
@@ -174,8 +175,9 @@ func (l *Lexer) scanInLine() Token {
 		l.advance()
 		return l.makeToken(TokenRBracket, "]")
 	case ch == '|':
+		pipePos := l.position()
 		l.advance()
-		return l.makeToken(TokenPipe, "|")
+		return Token{Type: TokenPipe, Value: "|", Pos: pipePos, End: l.position()}
 	case ch == '@':
 		return l.scanAt()
 	case ch == '=':
